@@ -32,6 +32,7 @@ func main() {
 		defer pprof.StopCPUProfile()
 	}
 	code := realMain()
+	sym.DumpForkProfile()
 	pprof.StopCPUProfile()
 	os.Exit(code)
 }
@@ -130,7 +131,7 @@ type replayFile struct {
 }
 
 func repoHead() string {
-	out, err := exec.Command("git", "-C", "/repo", "rev-parse", "--short", "HEAD").Output()
+	out, err := exec.Command("git", "-C", sym.RepoTop, "rev-parse", "--short", "HEAD").Output()
 	if err != nil {
 		return "?"
 	}
@@ -286,7 +287,7 @@ func (cs *checkState) writeEvidence(exhaustive bool) {
 		}
 		hparts = append(hparts, fmt.Sprintf("%s{%s}", h.Name, strings.Join(shp, " ")))
 	}
-	expl := fmt.Sprintf("Bounded symbolic execution (gosym: own Go-SSA symbolic executor, z3 4.8.12 on a pipe, cvc5/z3-new fall-back) of the real functions of /repo's current working tree, loaded and translated on this run. "+
+	expl := fmt.Sprintf("Bounded symbolic execution (gosym: own Go-SSA symbolic executor; z3 5.1 (z3-new) on a pipe, cvc5 for floating point, cvc5/z3 4.8.12 fall-back) of the real functions of /repo's current working tree, loaded and translated on this run. "+
 		"Every path of each harness shape was explored; on every path each assertion's negation was decided by the solver (unsat = holds for all input values of that shape). "+
 		"Harnesses and shapes (= the bound): %s. Outside the bound: larger sizes than the listed shapes; see DESIGN.md section 4 for the property's stated cuts. "+
 		"Loops are executed, not summarised: unwinding is complete for every shape or the run fails (exit 2).", strings.Join(hparts, "; "))
@@ -323,9 +324,13 @@ func (cs *checkState) writeEvidence(exhaustive bool) {
 		"wall_s":      time.Since(cs.start).Seconds(),
 		"violations":  cs.violations,
 	}
-	os.MkdirAll(filepath.Join(verifRoot, "evidence"), 0o755)
+	evDir := filepath.Join(verifRoot, "evidence")
+	if sym.RepoTop != "/repo" {
+		evDir = filepath.Join(os.TempDir(), "gosym_dev_evidence") // development run against a scratch tree
+	}
+	os.MkdirAll(evDir, 0o755)
 	data, _ := json.MarshalIndent(ev, "", " ")
-	os.WriteFile(filepath.Join(verifRoot, "evidence", cs.prop+".json"), data, 0o644)
+	os.WriteFile(filepath.Join(evDir, cs.prop+".json"), data, 0o644)
 }
 
 // ---- check ----
